@@ -12,7 +12,7 @@ Ltac consts :=
     off_create_list_capPerBuffer, off_create_list_counter,
     off_map_list_size, off_map_list_cap, off_map_list_head, off_map_list_tail,
     off_map_list_capPerBuffer, off_map_list_counter,
-    off_map_queue_head, off_map_queue_tail, off_map_queue_workingFlag, percent_base in *.
+    off_map_queue_head, off_map_queue_tail, off_map_queue_workingFlag, c_percentDivisor, c_percentSumMax in *.
 
 (* ---------------------------------------------------------------------------------------------- *)
 (* facts about the generated constants that the layout depends on; each is re-checked against the
@@ -121,7 +121,7 @@ Lemma create_loop_gen_ext chk1 chk2 : (forall a b c d, chk1 a b c d = chk2 a b c
 Proof.
   intros H pairs. induction pairs as [|[size pct] rest IH]; intros rc memLen off sum m; [reflexivity|].
   cbn [create_loop_gen]. cbv zeta. rewrite (create_fbl_gen_ext chk1 chk2 H).
-  destruct (percent_base <? w32 (sum + pct)); [reflexivity|].
+  destruct (c_percentSumMax <? w32 (sum + pct)); [reflexivity|].
   destruct (w32 (size + c_bufferHeaderSize) =? 0); [reflexivity|].
   destruct (create_fbl_gen chk2 _ size memLen off m) as [[c m1]|e|p]; try reflexivity.
   rewrite IH. reflexivity.
@@ -320,10 +320,10 @@ Proof.
   { cbn. repeat split; try lia. intros H; congruence. }
   inversion Hall as [|p l Hsz Hrest]; subst p l. cbn [fst] in Hsz.
   cbn [create_loop_gen]. cbv zeta.
-  destruct (percent_base <? w32 (sum + pct)); [exact I|].
+  destruct (c_percentSumMax <? w32 (sum + pct)); [exact I|].
   rewrite (w32_small (size + c_bufferHeaderSize)) by (consts; lia).
   destruct (size + c_bufferHeaderSize =? 0) eqn:Ez; [consts; lia|].
-  remember (w32 (w64 (rc * pct) / percent_base)) as X.
+  remember (w32 (w64 (rc * pct) / c_percentDivisor)) as X.
   assert (HX : 0 <= X < 4294967296) by (subst X; apply w32_range).
   remember (X / (size + c_bufferHeaderSize)) as num.
   assert (Hnum : 0 <= num) by (subst num; apply Z.div_pos; consts; lia).
@@ -569,13 +569,32 @@ Definition queue_wf (q : queue) : Prop :=
 Definition queues_ok (cap : Z) (A : qmanager) (memSize : Z) : Prop :=
   let s := qm_send A in let r := qm_recv A in
   q_cap s = cap /\ q_cap r = cap /\ queue_wf s /\ queue_wf r /\
-  0 <= qbase s /\ q_hi s <= qbase r /\ q_hi r <= memSize.
+  0 <= qbase s /\ 0 <= qbase r /\ q_hi s <= memSize /\ q_hi r <= memSize /\
+  (q_hi s <= qbase r \/ q_hi r <= qbase s).
 
-Definition queues_result_ok (cap : Z) (m : mem) : Prop :=
+(* one side creates with `create`, the peer maps the same memory with `map` *)
+Definition queues_result_ok_of (create : Z -> mem -> outcome (qmanager * Z * mem))
+  (map : Z -> mem -> outcome qmanager) (cap : Z) (m : mem) : Prop :=
   exists A memSize m' B,
-    create_qm cap m = Ok (A, memSize, m') /\ map_qm memSize m' = Ok B /\
+    create cap m = Ok (A, memSize, m') /\ map memSize m' = Ok B /\
     queues_ok cap A memSize /\
     qm_send B = qm_recv A /\ qm_recv B = qm_send A.
+Definition queues_result_ok := queues_result_ok_of create_qm map_qm.
+Definition queues_result_ok_memfd := queues_result_ok_of create_qm_memfd map_qm_memfd.
+
+(* the cross-wiring of the generated half indices: what the creating side uses for its send queue is
+   what the mapping side uses for its receive queue and vice versa, and one side's two queues use
+   different halves.  Re-checked against the current source on every build. *)
+Definition cross_wired (cs cr ms mr : Z) : Prop :=
+  ms = cr /\ mr = cs /\ ((cs = 0 /\ cr <> 0) \/ (cs <> 0 /\ cr = 0)).
+Lemma wiring_file : cross_wired off_halves_createQueueManager_sendQueue off_halves_createQueueManager_recvQueue
+                                off_halves_mappingQueueManager_sendQueue off_halves_mappingQueueManager_recvQueue.
+Proof. unfold cross_wired. split; [reflexivity|]. split; [reflexivity|].
+  unfold off_halves_createQueueManager_sendQueue, off_halves_createQueueManager_recvQueue. lia. Qed.
+Lemma wiring_memfd : cross_wired off_halves_createQueueManagerWithMemFd_sendQueue off_halves_createQueueManagerWithMemFd_recvQueue
+                                 off_halves_mappingQueueManagerMemfd_sendQueue off_halves_mappingQueueManagerMemfd_recvQueue.
+Proof. unfold cross_wired. split; [reflexivity|]. split; [reflexivity|].
+  unfold off_halves_createQueueManagerWithMemFd_sendQueue, off_halves_createQueueManagerWithMemFd_recvQueue. lia. Qed.
 
 Definition queue_at (base cap : Z) : queue :=
   {| q_cap := cap; q_head_at := base + off_map_queue_head; q_tail_at := base + off_map_queue_tail;
@@ -624,36 +643,70 @@ Qed.
 Lemma create_q_mem_cap m base cap : create_q_mem m base cap base = cap.
 Proof. unfold create_q_mem. repeat (rewrite upd_other by (consts; lia)). apply upd_same. Qed.
 
-Lemma queues_spec cap m :
-  0 <= cap -> c_queueHeaderLength + c_queueElementLen * cap < 4294967296 -> queues_result_ok cap m.
+Lemma half_slice_lower half : half_slice (half * 2) 0 = (0, half, half * 2).
+Proof. unfold half_slice. cbn [Z.eqb]. rewrite Z.div_mul by lia. reflexivity. Qed.
+Lemma half_slice_upper half idx : idx <> 0 -> half_slice (half * 2) idx = (half, half, half).
 Proof.
-  intros Hcap Hguard.
+  intros H. unfold half_slice. destruct (idx =? 0) eqn:E; [lia|].
+  rewrite Z.div_mul by lia. replace (half * 2 - half) with half by ring. reflexivity.
+Qed.
+
+Lemma queues_spec_gen cs cr ms mr cap m :
+  cross_wired cs cr ms mr ->
+  0 <= cap -> c_queueHeaderLength + c_queueElementLen * cap < 4294967296 ->
+  queues_result_ok_of (create_qm_gen cs cr) (map_qm_gen ms mr) cap m.
+Proof.
+  intros (-> & -> & Hw) Hcap Hguard.
   remember (c_queueHeaderLength + c_queueElementLen * cap) as half.
   assert (Hhalf : c_queueHeaderLength <= half) by (consts; lia).
   assert (Hms : queue_mem_size cap * c_queueCount = half * 2) by (unfold queue_mem_size; consts; lia).
-  assert (Hdiv : half * 2 / 2 = half) by (apply Z.div_mul; lia).
-  assert (Hc : create_qm cap m =
-               Ok ({| qm_send := queue_at 0 cap; qm_recv := queue_at half cap |}, half * 2,
-                   create_q_mem (create_q_mem m 0 cap) half cap)).
-  { unfold create_qm. rewrite Hms, Hdiv.
-    rewrite (create_q_eq 0 half (half * 2) m cap) by (consts; lia).
-    replace (half * 2 - half) with half by ring.
-    rewrite (create_q_eq half half half _ cap) by (consts; lia). reflexivity. }
-  assert (Hm : map_qm (half * 2) (create_q_mem (create_q_mem m 0 cap) half cap) =
-               Ok {| qm_send := queue_at half cap; qm_recv := queue_at 0 cap |}).
-  { unfold map_qm. rewrite Hdiv. replace (half * 2 - half) with half by ring.
-    rewrite (map_q_eq half half half _ cap) by (try (consts; lia); apply create_q_mem_cap).
-    rewrite (map_q_eq 0 half (half * 2) _ cap)
-      by (try (consts; lia); rewrite create_q_mem_read by (consts; lia); apply create_q_mem_cap).
-    reflexivity. }
-  exists {| qm_send := queue_at 0 cap; qm_recv := queue_at half cap |}, (half * 2),
-         (create_q_mem (create_q_mem m 0 cap) half cap),
-         {| qm_send := queue_at half cap; qm_recv := queue_at 0 cap |}.
-  split; [exact Hc|]. split; [exact Hm|]. split; [|split; reflexivity].
-  unfold queues_ok, queue_wf, qbase, queue_at.
-  cbn [qm_send qm_recv q_cap q_head_at q_tail_at q_flag_at q_lo q_hi].
-  repeat split; consts; lia.
+  unfold queues_result_ok_of.
+  destruct Hw as [(-> & Hr)|(Hs & ->)].
+  - (* send queue created on the lower half *)
+    assert (Hc : create_qm_gen 0 cr cap m =
+                 Ok ({| qm_send := queue_at 0 cap; qm_recv := queue_at half cap |}, half * 2,
+                     create_q_mem (create_q_mem m 0 cap) half cap)).
+    { unfold create_qm_gen. rewrite Hms, half_slice_lower, (half_slice_upper half cr Hr).
+      rewrite (create_q_eq 0 half (half * 2) m cap) by (consts; lia).
+      rewrite (create_q_eq half half half _ cap) by (consts; lia). reflexivity. }
+    assert (Hm : map_qm_gen cr 0 (half * 2) (create_q_mem (create_q_mem m 0 cap) half cap) =
+                 Ok {| qm_send := queue_at half cap; qm_recv := queue_at 0 cap |}).
+    { unfold map_qm_gen. rewrite half_slice_lower, (half_slice_upper half cr Hr).
+      rewrite (map_q_eq half half half _ cap) by (try (consts; lia); apply create_q_mem_cap).
+      rewrite (map_q_eq 0 half (half * 2) _ cap)
+        by (try (consts; lia); rewrite create_q_mem_read by (consts; lia); apply create_q_mem_cap).
+      reflexivity. }
+    do 4 eexists. split; [exact Hc|]. split; [exact Hm|]. split; [|split; reflexivity].
+    unfold queues_ok, queue_wf, qbase, queue_at.
+    cbn [qm_send qm_recv q_cap q_head_at q_tail_at q_flag_at q_lo q_hi].
+    repeat split; consts; lia.
+  - (* send queue created on the upper half *)
+    assert (Hc : create_qm_gen cs 0 cap m =
+                 Ok ({| qm_send := queue_at half cap; qm_recv := queue_at 0 cap |}, half * 2,
+                     create_q_mem (create_q_mem m half cap) 0 cap)).
+    { unfold create_qm_gen. rewrite Hms, half_slice_lower, (half_slice_upper half cs Hs).
+      rewrite (create_q_eq half half half m cap) by (consts; lia).
+      rewrite (create_q_eq 0 half (half * 2) _ cap) by (consts; lia). reflexivity. }
+    assert (Hm : map_qm_gen 0 cs (half * 2) (create_q_mem (create_q_mem m half cap) 0 cap) =
+                 Ok {| qm_send := queue_at 0 cap; qm_recv := queue_at half cap |}).
+    { unfold map_qm_gen. rewrite half_slice_lower, (half_slice_upper half cs Hs).
+      rewrite (map_q_eq 0 half (half * 2) _ cap) by (try (consts; lia); apply create_q_mem_cap).
+      rewrite (map_q_eq half half half _ cap)
+        by (try (consts; lia); rewrite create_q_mem_read by (consts; lia); apply create_q_mem_cap).
+      reflexivity. }
+    do 4 eexists. split; [exact Hc|]. split; [exact Hm|]. split; [|split; reflexivity].
+    unfold queues_ok, queue_wf, qbase, queue_at.
+    cbn [qm_send qm_recv q_cap q_head_at q_tail_at q_flag_at q_lo q_hi].
+    repeat split; consts; lia.
 Qed.
+
+Lemma queues_spec cap m :
+  0 <= cap -> c_queueHeaderLength + c_queueElementLen * cap < 4294967296 -> queues_result_ok cap m.
+Proof. intros. unfold queues_result_ok, create_qm, map_qm. apply queues_spec_gen; [exact wiring_file|lia|lia]. Qed.
+
+Lemma queues_spec_memfd cap m :
+  0 <= cap -> c_queueHeaderLength + c_queueElementLen * cap < 4294967296 -> queues_result_ok_memfd cap m.
+Proof. intros. unfold queues_result_ok_memfd, create_qm_memfd, map_qm_memfd. apply queues_spec_gen; [exact wiring_memfd|lia|lia]. Qed.
 
 (* ---------------------------------------------------------------------------------------------- *)
 (* the full statements (inputs range over what the Go types allow) and the proved parts *)
